@@ -11,6 +11,7 @@ pub mod shim;
 pub mod stubs;
 pub mod env;
 pub mod c03;
+pub mod c04;
 pub mod c05;
 pub mod c09;
 pub mod c16;
